@@ -54,6 +54,17 @@ func (p *Prog) exprFuncReturn(fn *ssa.Function, depth int) *ssa.Return {
 			if x.Op == token.ARROW {
 				return nil
 			}
+		case *ssa.Alloc:
+			// a value receiver / parameter spilled to a local so that its fields can be addressed
+			if x.Heap {
+				return nil
+			}
+		case *ssa.Store:
+			al, isAl := x.Addr.(*ssa.Alloc)
+			_, isPar := x.Val.(*ssa.Parameter)
+			if !isAl || al.Heap || !isPar {
+				return nil
+			}
 		case *ssa.Call:
 			if bi, isB := x.Call.Value.(*ssa.Builtin); isB {
 				switch bi.Name() {
